@@ -64,7 +64,40 @@ func PickHosts(ch *core.Chooser) []string {
 		idx[i], idx[j] = idx[j], idx[i]
 		hs = append(hs, AllHosts[idx[i]])
 	}
+	// skew: a "hot" host takes a larger share of rules and queries, so that
+	// many rules pile up on one name
+	hot := []int{0, 0, 2, 5}[ch.Intn("hosts.hot", 4)]
+	for i := 0; i < hot; i++ {
+		hs = append(hs, hs[0])
+	}
 	return hs
+}
+
+// SwarmKinds keeps a random subset of the kind mix for this run (swarm
+// testing): omitting kinds entirely reaches states that a uniform mix almost
+// never does, e.g. a host whose only rules are $dnsrewrite rules.
+func SwarmKinds(ch *core.Chooser, kinds []int) []int {
+	if ch.Intn("swarm.on", 3) == 0 {
+		return kinds
+	}
+	var keep [numKinds]bool
+	n := 0
+	for k := 0; k < numKinds; k++ {
+		if ch.Intn("swarm.keep", 2) == 1 {
+			keep[k] = true
+		}
+	}
+	var out []int
+	for _, k := range kinds {
+		if keep[k] {
+			out = append(out, k)
+			n++
+		}
+	}
+	if n < 3 {
+		return kinds
+	}
+	return out
 }
 
 func pick(ch *core.Chooser, label string, xs []string) string {
